@@ -125,7 +125,12 @@ def runC07 (fields : List String) (obs : String) : String × String × String :=
              | some (tag, _) => tag == 15 || (21 ≤ tag && tag ≤ 37) || tag == 42 || tag == 45
              | none => false)
          | .error _ => false
-       let region := if verdict == "ok" then "-" else if ((obs.splitOn "|V=panic").length > 1 || obs.endsWith "|V=abort" || obs.endsWith "|V=hang") && viaFromLe then "C07-D6" else "-"
+       -- the panics of the from_le decoders: a declared length / shape / count beyond the payload, a short read, an
+       -- element decoder that is not implemented.  A panic of another origin (an index or slice of the loader or of
+       -- decode_const_entries itself) is not this finding.
+       let slug := ((obs.splitOn "|V=panic:").getD 1 "")
+       let fromLePanic := ["String__from_le", "Cannot_create_Matrix", "read_", "not_implemented", "called__Result", "range_start_index", "capacity_overflow", "index_out_of_bounds"].any (fun p => slug.startsWith p)
+       let region := if verdict == "ok" then "-" else if (((obs.splitOn "|V=panic").length > 1 && fromLePanic) || obs.endsWith "|V=abort" || obs.endsWith "|V=hang") && viaFromLe then "C07-D6" else "-"
        (model, verdict, region))
   | ["crc", h] =>
     match bytesOfHex h with
